@@ -24,3 +24,26 @@ package writer
 //@   ensures res.SeqNum != 0 && (old(s.cycle.counter) == 0 || old(s.cycle.res.SeqNum) == res.SeqNum) ==> s.cycle.res.SeqNum == res.SeqNum
 //@   ensures __eq(out, res)
 //@   modifies s
+
+//@ import address "github.com/synnaxlabs/x/address"
+//@ import node "github.com/synnaxlabs/synnax/pkg/distribution/node"
+
+//@ # The gateway-side switch: the request is copied to each enabled target with the part of the
+//@ # frame that target is responsible for: gateway <- keys leased to this host, free writer <- free
+//@ # (unleased) keys, peer sender <- everything else. Every visible series reaches its target
+//@ # (if enabled) and a target receives no key of another class. No other address is written.
+//@ func (rl *peerGatewayFreeSwitch) _switch(ctx context.Context, r Request, oReqs map[address.Address]Request) (err error)
+//@   pragma abstract ShouldExcludeRaw
+//@   requires oReqs != nil && len(r.Frame.RawKeys()) == len(r.Frame.RawSeries())
+//@   ensures err == nil
+//@   ensures rl.has.gateway ==> __in(oReqs, gatewayWriterAddr) && oReqs[gatewayWriterAddr].Command == r.Command && oReqs[gatewayWriterAddr].SeqNum == r.SeqNum
+//@   ensures rl.has.gateway ==> (forall j int :: 0 <= j && j < len(oReqs[gatewayWriterAddr].Frame.RawKeys()) ==> oReqs[gatewayWriterAddr].Frame.RawKeys()[j].Leaseholder() == rl.host)
+//@   ensures rl.has.gateway ==> (forall i int :: 0 <= i && i < len(r.Frame.RawKeys()) && !r.Frame.ShouldExcludeRaw(i) && r.Frame.RawKeys()[i].Leaseholder() == rl.host ==> (exists j int :: 0 <= j && j < len(oReqs[gatewayWriterAddr].Frame.RawKeys()) && oReqs[gatewayWriterAddr].Frame.RawKeys()[j] == r.Frame.RawKeys()[i] && __eq(oReqs[gatewayWriterAddr].Frame.RawSeries()[j], r.Frame.RawSeries()[i])))
+//@   ensures rl.has.free ==> __in(oReqs, freeWriterAddr) && oReqs[freeWriterAddr].Command == r.Command && oReqs[freeWriterAddr].SeqNum == r.SeqNum
+//@   ensures rl.has.free ==> (forall j int :: 0 <= j && j < len(oReqs[freeWriterAddr].Frame.RawKeys()) ==> oReqs[freeWriterAddr].Frame.RawKeys()[j].Leaseholder() == node.KeyFree && oReqs[freeWriterAddr].Frame.RawKeys()[j].Leaseholder() != rl.host)
+//@   ensures rl.has.free ==> (forall i int :: 0 <= i && i < len(r.Frame.RawKeys()) && !r.Frame.ShouldExcludeRaw(i) && r.Frame.RawKeys()[i].Leaseholder() != rl.host && r.Frame.RawKeys()[i].Leaseholder() == node.KeyFree ==> (exists j int :: 0 <= j && j < len(oReqs[freeWriterAddr].Frame.RawKeys()) && oReqs[freeWriterAddr].Frame.RawKeys()[j] == r.Frame.RawKeys()[i] && __eq(oReqs[freeWriterAddr].Frame.RawSeries()[j], r.Frame.RawSeries()[i])))
+//@   ensures rl.has.peer ==> __in(oReqs, peerSenderAddr) && oReqs[peerSenderAddr].Command == r.Command && oReqs[peerSenderAddr].SeqNum == r.SeqNum
+//@   ensures rl.has.peer ==> (forall j int :: 0 <= j && j < len(oReqs[peerSenderAddr].Frame.RawKeys()) ==> oReqs[peerSenderAddr].Frame.RawKeys()[j].Leaseholder() != node.KeyFree && oReqs[peerSenderAddr].Frame.RawKeys()[j].Leaseholder() != rl.host)
+//@   ensures rl.has.peer ==> (forall i int :: 0 <= i && i < len(r.Frame.RawKeys()) && !r.Frame.ShouldExcludeRaw(i) && r.Frame.RawKeys()[i].Leaseholder() != rl.host && r.Frame.RawKeys()[i].Leaseholder() != node.KeyFree ==> (exists j int :: 0 <= j && j < len(oReqs[peerSenderAddr].Frame.RawKeys()) && oReqs[peerSenderAddr].Frame.RawKeys()[j] == r.Frame.RawKeys()[i] && __eq(oReqs[peerSenderAddr].Frame.RawSeries()[j], r.Frame.RawSeries()[i])))
+//@   ensures forall a address.Address :: (a != gatewayWriterAddr || !rl.has.gateway) && (a != freeWriterAddr || !rl.has.free) && (a != peerSenderAddr || !rl.has.peer) ==> __in(oReqs, a) == old(__in(oReqs, a)) && __eq(oReqs[a], old(oReqs[a]))
+//@   modifies oReqs
